@@ -125,6 +125,17 @@ class CHECK(Check):
                     fd.update({"dd": 2, "fmt": "F", "sep": "."})
                 for i in range(0, 65536, step):
                     yield {"fd": fd, "lines": [[0x41] + list(i.to_bytes(2, "little")) + [0x42]], "bytes": True}
+            # text spans in bytes lines padded with "wide" whitespace: FS..US, NEL, NBSP, EM SPACE, IDEOGRAPHIC SPACE -- str.strip
+            # (after decoding) removes them, bytes.strip does not
+            pads = [[0x1C], [0x1F], [0xC2, 0x85], [0xC2, 0xA0], [0xE2, 0x80, 0x83], [0xE3, 0x80, 0x80], [0x0B], [0x20]]
+            for padl in pads:
+                for padr in pads[:5]:
+                    for body, kd in (("0131", "date"), ("2020", "date"), ("ab", "lit")):
+                        seq = padl + [ord(c) for c in body] + padr
+                        fd = {"k": kd, "size": len(seq), "start": 1}
+                        if kd == "date":
+                            fd["formats"] = ["%m%d"] if body == "0131" else ["%Y"]
+                        yield {"fd": fd, "lines": [[0x41] + seq + [0x42]], "bytes": True}
             bad_utf8 = [[0xC0, 0x80], [0xC1, 0xBF], [0xE0, 0x80, 0x80], [0xE0, 0x9F, 0xBF], [0xED, 0xA0, 0x80], [0xF0, 0x80, 0x80, 0x80],
                         [0xF4, 0x90, 0x80, 0x80], [0xF5, 0x80, 0x80, 0x80], [0x80], [0xBF], [0xC2], [0xE2, 0x82], [0xF0, 0x9F, 0x98],
                         [0xC2, 0x41], [0xE2, 0x28, 0xA1], [0xFF], [0xFE]]
